@@ -1,5 +1,6 @@
 /-
-  Props/C12.lean — property C12 (character terminals; the escape clause is in Props/C12Esc):
+  Props/C12.lean — property C12 (character terminals; the escape clause is in Props/C12Escapes.lean,
+  imported here so that this one module carries every C12 obligation):
   "Every character range 'a'..'b', single-character literal, ASCII_* / NEWLINE / ANY built-in
    and every character class the optimizer merges them into accepts exactly the code points
    its definition specifies — no more (ranges are case sensitive) and no fewer — for all
@@ -37,6 +38,7 @@ import PestModel.Interp
 import PestModel.Gen
 import PestModel.Opt
 import PestModel.Generated.AsciiTables
+import PestModel.Props.C12Escapes
 
 namespace Pest
 namespace C12
